@@ -55,7 +55,22 @@ func positionStartGPOS(buffer *Buffer) {
 	}
 }
 
-func propagateAttachmentOffsets(pos []GlyphPosition, i int, direction Direction) {
+// advanceSums holds the running sums of the advances of a buffer :
+// sums[k] is the sum of the advances of pos[:k]
+type advanceSums []struct{ x, y Position }
+
+func newAdvanceSums(pos []GlyphPosition) advanceSums {
+	sums := make(advanceSums, len(pos)+1)
+	for k, p := range pos {
+		sums[k+1].x = sums[k].x + p.XAdvance
+		sums[k+1].y = sums[k].y + p.YAdvance
+	}
+	return sums
+}
+
+// [sums] must be the running sums of the advances of [pos] : they make the cost of one mark
+// attachment independent of its distance to the base (many marks on one base are otherwise quadratic)
+func propagateAttachmentOffsets(pos []GlyphPosition, sums advanceSums, i int, direction Direction) {
 	/* Adjusts offsets of attached glyphs (both cursive and mark) to accumulate
 	 * offset of glyph they are attached to. */
 	chain, type_ := pos[i].attachChain, pos[i].attachType
@@ -71,7 +86,7 @@ func propagateAttachmentOffsets(pos []GlyphPosition, i int, direction Direction)
 		return
 	}
 
-	propagateAttachmentOffsets(pos, j, direction)
+	propagateAttachmentOffsets(pos, sums, j, direction)
 
 	//   assert (!!(type_ & attachTypeMark) ^ !!(type_ & attachTypeCursive));
 
@@ -90,15 +105,13 @@ func propagateAttachmentOffsets(pos []GlyphPosition, i int, direction Direction)
 			return
 		}
 		if direction.isForward() {
-			for _, p := range pos[j:i] {
-				pos[i].XOffset -= p.XAdvance
-				pos[i].YOffset -= p.YAdvance
-			}
+			// subtract the advances of pos[j:i]
+			pos[i].XOffset -= sums[i].x - sums[j].x
+			pos[i].YOffset -= sums[i].y - sums[j].y
 		} else {
-			for _, p := range pos[j+1 : i+1] {
-				pos[i].XOffset += p.XAdvance
-				pos[i].YOffset += p.YAdvance
-			}
+			// add the advances of pos[j+1:i+1]
+			pos[i].XOffset += sums[i+1].x - sums[j+1].x
+			pos[i].YOffset += sums[i+1].y - sums[j+1].y
 		}
 	}
 }
@@ -114,8 +127,9 @@ func positionFinishOffsetsGPOS(buffer *Buffer) {
 			fmt.Println("POSITION - handling attachments")
 		}
 
+		sums := newAdvanceSums(pos) // the advances are not modified below
 		for i := range pos {
-			propagateAttachmentOffsets(pos, i, direction)
+			propagateAttachmentOffsets(pos, sums, i, direction)
 		}
 	}
 }
